@@ -167,7 +167,7 @@ def load_one(pkg, scratch):
         subst = [(path, '<PACKAGE>')]
         ids = sorted(conc.get_component_identifiers(recompute=True))
         res['conf'] = canon({
-            'components': {'stage%d.%s' % cid: conc.get_component_configuration(cid, raw=False, is_primitive=False)
+            'components': {'stage%d.%s' % cid: conc.get_component_configuration(cid, raw=False, include_default=True, is_primitive=False)
                            for cid in ids},
             'vars': {str(s): conc.get_platform_stage_variables(s) for s in range(conc.get_stage_number())},
         }, subst)
